@@ -3,7 +3,7 @@ import json
 import os
 
 import common
-from . import gradual, scoregen, decoder, convert, builders, modsrep, attrs, strains, session
+from . import gradual, scoregen, decoder, convert, builders, modsrep, attrs, strains, session, corners
 
 REGISTRY = {}
 REGISTRY.update(gradual.REGISTRY)
@@ -15,6 +15,7 @@ REGISTRY.update(modsrep.REGISTRY)
 REGISTRY.update(attrs.REGISTRY)
 REGISTRY.update(strains.REGISTRY)
 REGISTRY.update(session.REGISTRY)
+REGISTRY.update(corners.REGISTRY)
 
 
 def setup():
@@ -39,7 +40,7 @@ def replay(path):
     obj = json.load(open(path))
     prop = obj["property"]
     kind = obj["replay"].get("kind")
-    for mod in (gradual, scoregen, decoder, convert, builders, modsrep, attrs, strains, session):
+    for mod in (gradual, scoregen, decoder, convert, builders, modsrep, attrs, strains, session, corners):
         if kind in mod.REPLAY_KINDS:
             return mod.replay(prop, obj)
     common.log("no replay handler for kind %r" % kind)
